@@ -103,11 +103,19 @@ def match_known(known, sub_check, signature):
 
 
 def load_known(pid):
-  if not os.path.exists(KNOWN_FILE):
-    return []
-  with open(KNOWN_FILE) as f:
-    data = json.load(f)
-  return [k for k in data.get("findings", []) if k.get("property") == pid]
+  out = []
+  files = [KNOWN_FILE]
+  d = os.path.join(HERE, "known_findings.d")   # staging area, merged by hand
+  if os.path.isdir(d):
+    files += [os.path.join(d, f) for f in sorted(os.listdir(d))
+              if f.endswith(".json")]
+  for fn in files:
+    if not os.path.exists(fn):
+      continue
+    with open(fn) as f:
+      data = json.load(f)
+    out += [k for k in data.get("findings", []) if k.get("property") == pid]
+  return out
 
 
 # --------------------------------------------------------------------------
@@ -129,6 +137,8 @@ class Ctx(object):
     self.samples = {}
     self.failures = {}
     self.info = {}
+    self._session = set()
+    self._target = None
 
   @property
   def quick(self):
@@ -172,6 +182,24 @@ class Ctx(object):
       if size < b["size"]:
         b.update(case=case, detail=str(detail)[:2000], size=size)
     return key
+
+  def report(self, sub_check, signature, case, detail=""):
+    """For stateful machines / free-form Hypothesis tests run by hyp_machine:
+    records the failure; raises Violation when it is neither a known finding
+    nor already collected in this session (so Hypothesis shrinks it, pinned to
+    that signature)."""
+    key = fkey(sub_check, signature)
+    if self._target is not None:
+      if key == self._target:
+        self.fail(sub_check, signature, case, detail)
+        raise Violation(key)
+      return
+    if self.is_known(sub_check, signature) or key in self._session:
+      self.fail(sub_check, signature, case, detail)
+      return
+    self._target = key
+    self.fail(sub_check, signature, case, detail)
+    raise Violation(key)
 
   def result(self):
     return {"evals": self.evals, "labels": dict(self.labels),
@@ -278,7 +306,10 @@ def finalize(pid, tier, seed, merged, known, mod, wall, is_replay, repo):
     return rc
 
   # vacuity guard: interesting classes must be populated
-  missing = [l for l in getattr(mod, "REQUIRED_LABELS", {}).get(tier, [])
+  req = getattr(mod, "REQUIRED_LABELS", {})
+  if isinstance(req, (list, tuple)):
+    req = {tier: list(req)}
+  missing = [l for l in req.get(tier, [])
              if merged["labels"].get(l, 0) == 0]
   nontriv = len(merged["nontrivial"])
   samples = []
@@ -413,4 +444,45 @@ def hyp_run(ctx, strategy, oracle, max_examples, name="hyp", max_rounds=8):
       rounds += 1
       continue
     break
+  ctx.info["hyp_rounds_" + name] = rounds
+
+
+def hyp_machine(ctx, machine_cls, max_examples, step_count=30, name="machine",
+                max_rounds=6):
+  """Runs a hypothesis RuleBasedStateMachine whose rules/invariants call
+  ctx.report(...) on failure.  Collect-then-shrink as hyp_run."""
+  import hypothesis  # pylint: disable=g-import-not-at-top
+  from hypothesis import HealthCheck, settings  # pylint: disable=g-import-not-at-top
+  from hypothesis.stateful import run_state_machine_as_test  # pylint: disable=g-import-not-at-top
+
+  rounds = 0
+  while rounds < max_rounds:
+    if ctx.time_left() <= 0:
+      ctx.labels["inconclusive_time"] += 1
+      break
+    ctx._target = None
+    st = settings(max_examples=max(1, max_examples), database=None,
+                  deadline=None, stateful_step_count=step_count,
+                  report_multiple_bugs=False, print_blob=False,
+                  suppress_health_check=list(HealthCheck))
+    m = hypothesis.seed(ctx.wseed * 31 + rounds * 7919 + jhash(name) % 1000)(
+        machine_cls)
+    try:
+      run_state_machine_as_test(m, settings=st)
+    except Violation:
+      pass
+    except hypothesis.errors.HypothesisException as e:
+      if ctx._target is None:
+        raise HarnessError("hypothesis: %s: %s" % (type(e).__name__, e))
+    except BaseException as e:  # pylint: disable=broad-except
+      if ctx._target is None or isinstance(e, (KeyboardInterrupt,
+                                               HarnessError)):
+        raise
+    if ctx._target is not None:
+      ctx._session.add(ctx._target)
+      ctx._target = None
+      rounds += 1
+      continue
+    break
+  ctx._target = None
   ctx.info["hyp_rounds_" + name] = rounds
